@@ -11,66 +11,79 @@ Open Scope string_scope.
 Lemma gen_cfg_ok : cfg_ok gen_cfg = true.
 Proof. vm_compute. reflexivity. Qed.
 
-(** * The property at full strength (DuckDB's observed behaviour on a failed COPY: [duckdb_residue]);
+(** what a failed COPY leaves behind under the implementation as it is now: DuckDB's debris at a new path, unless
+    the regenerated facts say that _write removes it *)
+Definition gen_residue : residue_fn := residue_of gen_cfg.
+
+(** * The property at full strength (behaviour on a failed COPY: [gen_residue]);
       [modes_full] = every well-formed history gives the spec's outcomes and final tables/files,
       [catalog_full] = tableExists is "created and not dropped since", [faults_full] = a failing write changes nothing.
       It is FALSE of the faithful model on the unchanged tree: see props/C14_refuted.v. *)
-Definition C14_modes_full : Prop := modes_full gen_cfg duckdb_residue.
-Definition C14_catalog_full : Prop := catalog_full gen_cfg duckdb_residue.
-Definition C14_faults_full : Prop := faults_full gen_cfg duckdb_residue.
-Definition C14_full : Prop := property_full gen_cfg duckdb_residue.
+Definition C14_modes_full : Prop := modes_full gen_cfg gen_residue.
+Definition C14_catalog_full : Prop := catalog_full gen_cfg gen_residue.
+Definition C14_faults_full : Prop := faults_full gen_cfg gen_residue.
+Definition C14_full : Prop := property_full gen_cfg gen_residue.
 
 (** * What is proved *)
 
 (** everything that is proved of [C14_full], in one statement (the pieces follow) *)
 Theorem C14_partial :
-  (forall ops, hist_ok gen_cfg duckdb_residue m_init ops = true ->
-     s_run s_init ops = (abs (fst (m_run gen_cfg duckdb_residue m_init ops)), snd (m_run gen_cfg duckdb_residue m_init ops)))
+  (forall ops, hist_ok gen_cfg gen_residue m_init ops = true ->
+     s_run s_init ops = (abs (fst (m_run gen_cfg gen_residue m_init ops)), snd (m_run gen_cfg gen_residue m_init ops)))
   /\ C14_catalog_full
   /\ (forall st o d, is_write o = true -> op_df o = Some d -> df_bad d = true ->
-        atomic_at duckdb_residue st o = true -> fst (m_step gen_cfg duckdb_residue st o) = st).
-Proof. exact (property_partial gen_cfg duckdb_residue gen_cfg_ok). Qed.
+        atomic_at gen_residue st o = true -> fst (m_step gen_cfg gen_residue st o) = st).
+Proof. exact (property_partial gen_cfg gen_residue gen_cfg_ok). Qed.
 Print Assumptions C14_partial.
 
 (** modes + round trip + reads: every history (any length, any targets) inside the decidable domain [hist_ok] *)
 Theorem C14_partial_modes :
-  forall ops, hist_ok gen_cfg duckdb_residue m_init ops = true ->
-    snd (m_run gen_cfg duckdb_residue m_init ops) = snd (s_run s_init ops).
-Proof. exact (modes_refine_spec_obs gen_cfg duckdb_residue gen_cfg_ok). Qed.
+  forall ops, hist_ok gen_cfg gen_residue m_init ops = true ->
+    snd (m_run gen_cfg gen_residue m_init ops) = snd (s_run s_init ops).
+Proof. exact (modes_refine_spec_obs gen_cfg gen_residue gen_cfg_ok). Qed.
 Print Assumptions C14_partial_modes.
 
 Theorem C14_partial_modes_any_state :
-  forall ops st, hist_ok gen_cfg duckdb_residue st ops = true ->
-    s_run (abs st) ops = (abs (fst (m_run gen_cfg duckdb_residue st ops)), snd (m_run gen_cfg duckdb_residue st ops)).
-Proof. exact (modes_refine_spec gen_cfg duckdb_residue gen_cfg_ok). Qed.
+  forall ops st, hist_ok gen_cfg gen_residue st ops = true ->
+    s_run (abs st) ops = (abs (fst (m_run gen_cfg gen_residue st ops)), snd (m_run gen_cfg gen_residue st ops)).
+Proof. exact (modes_refine_spec gen_cfg gen_residue gen_cfg_ok). Qed.
 Print Assumptions C14_partial_modes_any_state.
 
 (** the catalog part holds in full *)
 Theorem C14_catalog_holds : C14_catalog_full.
-Proof. exact (fun ops k => catalog_reflects gen_cfg duckdb_residue ops m_init k). Qed.
+Proof. exact (fun ops k => catalog_reflects gen_cfg gen_residue ops m_init k). Qed.
 Print Assumptions C14_catalog_holds.
 
 Theorem C14_list_tables_exact :
-  forall ops, let st := fst (m_run gen_cfg duckdb_residue m_init ops) in
+  forall ops, let st := fst (m_run gen_cfg gen_residue m_init ops) in
     NoDup (akeys (m_tabs st)) /\
-    forall k, In k (akeys (m_tabs st)) <-> live (fun _ => false) ops (snd (m_run gen_cfg duckdb_residue m_init ops)) k = true.
-Proof. exact (list_tables_exact gen_cfg duckdb_residue). Qed.
+    forall k, In k (akeys (m_tabs st)) <-> live (fun _ => false) ops (snd (m_run gen_cfg gen_residue m_init ops)) k = true.
+Proof. exact (list_tables_exact gen_cfg gen_residue). Qed.
 Print Assumptions C14_list_tables_exact.
 
 (** faults: the state (tables, files, schema cache) is untouched whenever the failed COPY leaves that one path as it
     was ([atomic_at], boolean, about the engine's runtime behaviour); no assumption for table targets *)
 Theorem C14_partial_faults :
   forall st o d, is_write o = true -> op_df o = Some d -> df_bad d = true ->
-    atomic_at duckdb_residue st o = true ->
-    fst (m_step gen_cfg duckdb_residue st o) = st /\ no_rows (snd (m_step gen_cfg duckdb_residue st o)).
-Proof. exact (failed_write_leaves_state gen_cfg duckdb_residue). Qed.
+    atomic_at gen_residue st o = true ->
+    fst (m_step gen_cfg gen_residue st o) = st /\ no_rows (snd (m_step gen_cfg gen_residue st o)).
+Proof. exact (failed_write_leaves_state gen_cfg gen_residue). Qed.
 Print Assumptions C14_partial_faults.
+
+(** since fix "DuckDB _write removes the debris of a failed COPY at a new path" the fault clause holds in full: the
+    regenerated fact [cleans_new_path_debris] makes [gen_residue] the identity (checked by conversion) *)
+Theorem C14_faults_hold : C14_faults_full.
+Proof.
+  exact (fun st o d Hw Hd Hb =>
+           proj1 (failed_write_leaves_state_atomic gen_cfg gen_residue (fun prev => eq_refl) st o d Hw Hd Hb)).
+Qed.
+Print Assumptions C14_faults_hold.
 
 Theorem C14_faults_tables_hold :
   forall st o d, is_write o = true -> op_df o = Some d -> df_bad d = true ->
     (match o with OpWrite _ _ _ _ _ => False | _ => True end) ->
-    fst (m_step gen_cfg duckdb_residue st o) = st.
-Proof. exact (failed_table_write_leaves_state gen_cfg duckdb_residue). Qed.
+    fst (m_step gen_cfg gen_residue st o) = st.
+Proof. exact (failed_table_write_leaves_state gen_cfg gen_residue). Qed.
 Print Assumptions C14_faults_tables_hold.
 
 (** under statement atomicity of COPY (any engine behaviour [residue] with [residue prev = prev]) nothing is assumed *)
@@ -83,47 +96,47 @@ Print Assumptions C14_faults_under_atomic_stmt.
 
 Theorem C14_session_usable :
   forall st o d rest, is_write o = true -> op_df o = Some d -> df_bad d = true ->
-    atomic_at duckdb_residue st o = true ->
-    m_run gen_cfg duckdb_residue st (o :: rest) =
-    (fst (m_run gen_cfg duckdb_residue st rest),
-     snd (m_step gen_cfg duckdb_residue st o) :: snd (m_run gen_cfg duckdb_residue st rest)).
-Proof. exact (session_usable_after_failed_write gen_cfg duckdb_residue). Qed.
+    atomic_at gen_residue st o = true ->
+    m_run gen_cfg gen_residue st (o :: rest) =
+    (fst (m_run gen_cfg gen_residue st rest),
+     snd (m_step gen_cfg gen_residue st o) :: snd (m_run gen_cfg gen_residue st rest)).
+Proof. exact (session_usable_after_failed_write gen_cfg gen_residue). Qed.
 Print Assumptions C14_session_usable.
 
 Theorem C14_roundtrip_table :
   forall st n a s t,
-    step_ok gen_cfg duckdb_residue st (OpSave n a s (DGood t)) = true ->
-    snd (m_step gen_cfg duckdb_residue st (OpSave n a s (DGood t))) = OOk ->
+    step_ok gen_cfg gen_residue st (OpSave n a s (DGood t)) = true ->
+    snd (m_step gen_cfg gen_residue st (OpSave n a s (DGood t))) = OOk ->
     (ahas n (m_tabs st) = false \/ parse_mode (eff_mode a s) = Some MOverwrite) ->
-    let st1 := fst (m_step gen_cfg duckdb_residue st (OpSave n a s (DGood t))) in
-    step_ok gen_cfg duckdb_residue st1 (OpReadTable n) = true ->
-    snd (m_step gen_cfg duckdb_residue st1 (OpReadTable n)) = ORows t.
-Proof. exact (fun st n a s t => roundtrip_table gen_cfg duckdb_residue st n a s t gen_cfg_ok). Qed.
+    let st1 := fst (m_step gen_cfg gen_residue st (OpSave n a s (DGood t))) in
+    step_ok gen_cfg gen_residue st1 (OpReadTable n) = true ->
+    snd (m_step gen_cfg gen_residue st1 (OpReadTable n)) = ORows t.
+Proof. exact (fun st n a s t => roundtrip_table gen_cfg gen_residue st n a s t gen_cfg_ok). Qed.
 Print Assumptions C14_roundtrip_table.
 
 Theorem C14_roundtrip_path :
   forall st p f a s t,
-    step_ok gen_cfg duckdb_residue st (OpWrite p f a s (DGood t)) = true ->
-    snd (m_step gen_cfg duckdb_residue st (OpWrite p f a s (DGood t))) = OOk ->
+    step_ok gen_cfg gen_residue st (OpWrite p f a s (DGood t)) = true ->
+    snd (m_step gen_cfg gen_residue st (OpWrite p f a s (DGood t))) = OOk ->
     (ahas p (m_files st) = false \/ parse_mode (eff_mode a s) = Some MOverwrite) ->
-    let st1 := fst (m_step gen_cfg duckdb_residue st (OpWrite p f a s (DGood t))) in
-    snd (m_step gen_cfg duckdb_residue st1 (OpReadPath p f)) = ORows t.
-Proof. exact (fun st p f a s t => roundtrip_path gen_cfg duckdb_residue st p f a s t gen_cfg_ok). Qed.
+    let st1 := fst (m_step gen_cfg gen_residue st (OpWrite p f a s (DGood t))) in
+    snd (m_step gen_cfg gen_residue st1 (OpReadPath p f)) = ORows t.
+Proof. exact (fun st p f a s t => roundtrip_path gen_cfg gen_residue st p f a s t gen_cfg_ok). Qed.
 Print Assumptions C14_roundtrip_path.
 
 (** namesakes: the same refinement with session temporary views (shadow session.table, show in the catalog API, never
     influence a write), the guarded re-create `if not tableExists`, and same-named tables in another schema (no-ops) *)
 Theorem C14_partial_namesakes :
-  forall ops xs, x_hist_ok gen_cfg duckdb_residue xs ops = true ->
-    x_s_run (x_abs xs) ops = (x_abs (fst (x_m_run gen_cfg duckdb_residue xs ops)), snd (x_m_run gen_cfg duckdb_residue xs ops)).
-Proof. exact (x_modes_refine_spec gen_cfg duckdb_residue gen_cfg_ok). Qed.
+  forall ops xs, x_hist_ok gen_cfg gen_residue xs ops = true ->
+    x_s_run (x_abs xs) ops = (x_abs (fst (x_m_run gen_cfg gen_residue xs ops)), snd (x_m_run gen_cfg gen_residue xs ops)).
+Proof. exact (x_modes_refine_spec gen_cfg gen_residue gen_cfg_ok). Qed.
 Print Assumptions C14_partial_namesakes.
 
 Theorem C14_views_do_not_touch_writes :
   forall st vs o, is_write o = true ->
-    x_m_step gen_cfg duckdb_residue (st, vs) (XOp o)
-    = ((fst (m_step gen_cfg duckdb_residue st o), vs), snd (m_step gen_cfg duckdb_residue st o)).
-Proof. exact (views_do_not_touch_writes gen_cfg duckdb_residue). Qed.
+    x_m_step gen_cfg gen_residue (st, vs) (XOp o)
+    = ((fst (m_step gen_cfg gen_residue st o), vs), snd (m_step gen_cfg gen_residue st o)).
+Proof. exact (views_do_not_touch_writes gen_cfg gen_residue). Qed.
 Print Assumptions C14_views_do_not_touch_writes.
 
 (** * The domain is inhabited: all six modes on a table and on files, insertInto positional and byName (after the
@@ -148,11 +161,11 @@ Definition demo : list op :=
     OpWrite "q" FParquet (Some "errorifexists") None (DGood fr_as); OpReadPath "q" FParquet;
     OpWrite "r" FJson (Some "ignore") None (DGood fr_file); OpReadPath "r" FJson ].
 
-Example C14_domain_nonempty : hist_ok gen_cfg duckdb_residue m_init demo = true.
+Example C14_domain_nonempty : hist_ok gen_cfg gen_residue m_init demo = true.
 Proof. vm_compute. reflexivity. Qed.
 
 Example C14_demo_outcomes :
-  firstn 9 (snd (m_run gen_cfg duckdb_residue m_init demo)) =
+  firstn 9 (snd (m_run gen_cfg gen_residue m_init demo)) =
   [OOk; OErr EExists; OErr EExists; OOk; ORows fr_as; OOk; OOk; OOk;
    ORows (mkTbl [("a", TInt); ("s", TStr)]
                 [[VInt 1; VStr "x"]; [VInt 2; VNull]; [VNull; VStr "It's"]; [VNull; VStr "It's"]; [VInt 5; VStr "kx"]])].
@@ -160,19 +173,19 @@ Proof. vm_compute. reflexivity. Qed.
 
 (** the hypotheses of the fault theorem are satisfiable, on a table and on an existing file *)
 Example C14_fault_hyp_table :
-  let st := fst (m_run gen_cfg duckdb_residue m_init [OpSave "t" None None (DGood fr_as)]) in
-  atomic_at duckdb_residue st (OpSave "t" (Some "overwrite") None (DBad fr_as2)) = true
-  /\ snd (m_step gen_cfg duckdb_residue st (OpSave "t" (Some "overwrite") None (DBad fr_as2))) = OErr EFailed.
+  let st := fst (m_run gen_cfg gen_residue m_init [OpSave "t" None None (DGood fr_as)]) in
+  atomic_at gen_residue st (OpSave "t" (Some "overwrite") None (DBad fr_as2)) = true
+  /\ snd (m_step gen_cfg gen_residue st (OpSave "t" (Some "overwrite") None (DBad fr_as2))) = OErr EFailed.
 Proof. vm_compute. split; reflexivity. Qed.
 Example C14_fault_hyp_file :
-  let st := fst (m_run gen_cfg duckdb_residue m_init [OpWrite "p" FCsv None None (DGood fr_file)]) in
-  atomic_at duckdb_residue st (OpWrite "p" FCsv (Some "overwrite") None (DBad fr_file)) = true
-  /\ snd (m_step gen_cfg duckdb_residue st (OpWrite "p" FCsv (Some "overwrite") None (DBad fr_file))) = OErr EFailed.
+  let st := fst (m_run gen_cfg gen_residue m_init [OpWrite "p" FCsv None None (DGood fr_file)]) in
+  atomic_at gen_residue st (OpWrite "p" FCsv (Some "overwrite") None (DBad fr_file)) = true
+  /\ snd (m_step gen_cfg gen_residue st (OpWrite "p" FCsv (Some "overwrite") None (DBad fr_file))) = OErr EFailed.
 Proof. vm_compute. split; reflexivity. Qed.
 
 (** the namesake layer's domain is inhabited *)
 Example C14_namesakes_nonempty :
-  x_hist_ok gen_cfg duckdb_residue (m_init, [])
+  x_hist_ok gen_cfg gen_residue (m_init, [])
     [XForeign "t"; XTempView "t" (mkTbl [("v", TInt)] [[VInt 5]]); XOp (OpSave "t" (Some "ignore") None (DGood fr_as));
      XOp (OpExists "t"); XOp OpList; XOp (OpReadTable "t"); XOp (OpInsert "t" true (DGood fr_sa)); XGuardedSave "t" (DGood fr_as2);
      XOp (OpDrop "t"); XOp (OpExists "t"); XGuardedSave "t" (DGood fr_as2); XGuardedSave "u" (DGood fr_as2); XOp (OpReadTable "u")]
